@@ -193,7 +193,8 @@ class LockedMachine(Machine):
         for prefix in self.state_cls.dynamic_methods:
             callback = "{0}_{1}".format(prefix, self._get_qualified_state_name(state))
             func = getattr(model, callback, None)
-            if isinstance(func, partial) and func.func != state.add_callback:
+            if isinstance(func, partial) and func.func != state.add_callback and \
+                    callback not in getattr(state, prefix):  # (core has registered it already or the state names it)
                 state.add_callback(prefix[3:], callback)
 
     # this needs to be overridden by the HSM variant to resolve names correctly
